@@ -79,7 +79,7 @@ impl Engine for C04 {
     }
     fn runs(&self, tier: Tier) -> u64 {
         match tier {
-            Tier::Quick => 40_000,
+            Tier::Quick => 80_000,
             Tier::Thorough => 2_000_000,
         }
     }
